@@ -32,13 +32,14 @@ type TNode struct {
 }
 
 type C13Case struct {
-	Root      *TNode `json:"root"`
-	Alts      int    `json:"alts"`             // > 0: the root is a list of 1+Alts alternatives
-	StopAt    int    `json:"stopAt"`           // Walk: node index (post-order) where the callback returns true, -1 never
-	FailCheck int    `json:"failCheck"`        // index among checkers, -1 none
-	FailTrans int    `json:"failTrans"`        // index among transformers reached, -1 none
-	FailEval  int    `json:"failEval"`         // node id whose Eval fails, -1 none
-	CtxErr    bool   `json:"ctxErr,omitempty"` // Parse pass: the (successful) parser left a failed attempt's error in the context, beyond every node
+	Root          *TNode `json:"root"`
+	Alts          int    `json:"alts"`                    // > 0: the root is a list of 1+Alts alternatives
+	StopAt        int    `json:"stopAt"`                  // Walk: node index (post-order) where the callback returns true, -1 never
+	FailTransNode bool   `json:"failTransNode,omitempty"` // the failing transformer returns its node together with the error
+	FailCheck     int    `json:"failCheck"`               // index among checkers, -1 none
+	FailTrans     int    `json:"failTrans"`               // index among transformers reached, -1 none
+	FailEval      int    `json:"failEval"`                // node id whose Eval fails, -1 none
+	CtxErr        bool   `json:"ctxErr,omitempty"`        // Parse pass: the (successful) parser left a failed attempt's error in the context, beyond every node
 }
 
 func (n *TNode) String() string {
@@ -131,20 +132,22 @@ func genC13(t *rapid.T) interface{} {
 		c.FailCheck, c.FailTrans, c.FailEval = -1, -1, -1
 	}
 	c.CtxErr = rapid.Bool().Draw(t, "ctxErr")
+	c.FailTransNode = rapid.Bool().Draw(t, "failTransNode")
 	return c
 }
 
 // ---- instrumented interpreters ----
 
 type env13 struct {
-	log       []string
-	built     map[int]parsley.Node
-	inner     map[int]parsley.Node // OwnWalk nodes: the embedded library node (what interpreters are handed)
-	failCheck int                  // node id
-	pass      int                  // > 0: schemas returned by the checkers carry a mark (second StaticCheck of one tree)
-	failTrans int
-	failEval  int
-	problems  []string
+	log                []string
+	built              map[int]parsley.Node
+	inner              map[int]parsley.Node // OwnWalk nodes: the embedded library node (what interpreters are handed)
+	failCheck          int                  // node id
+	pass               int                  // > 0: schemas returned by the checkers carry a mark (second StaticCheck of one tree)
+	failTrans          int
+	failTransKeepsNode bool
+	failEval           int
+	problems           []string
 }
 
 type baseI struct {
@@ -196,6 +199,10 @@ func (c transI) TransformNode(userCtx interface{}, node parsley.Node) (parsley.N
 		c.e.problems = append(c.e.problems, fmt.Sprintf("the transformer of node %d was handed a different node", c.id))
 	}
 	if c.e.failTrans == c.id {
+		if c.e.failTransKeepsNode {
+			// the "return node, err" habit: the error decides, whatever comes with it
+			return node, parsley.NewError(node.Pos(), errors.New("trans failed"))
+		}
 		return nil, parsley.NewError(node.Pos(), errors.New("trans failed"))
 	}
 	return ast.NewTerminalNode(nil, "T", fmt.Sprintf("t%d", c.id), node.Pos(), node.ReaderPos()), nil
@@ -376,7 +383,7 @@ func treeDepth(n *TNode) int {
 }
 
 func (c *C13Case) fresh() (*env13, parsley.Node, []*TNode) {
-	e := &env13{built: map[int]parsley.Node{}, inner: map[int]parsley.Node{}, failCheck: -1, failTrans: -1, failEval: -1}
+	e := &env13{built: map[int]parsley.Node{}, inner: map[int]parsley.Node{}, failCheck: -1, failTrans: -1, failEval: -1, failTransKeepsNode: c.FailTransNode}
 	next := 0
 	numberT(c.Root, &next)
 	pos := 1
@@ -715,7 +722,7 @@ func checkC13(ci interface{}, st *Stats) (err error) {
 		if terr == nil && gotShape(res) != wantShape(c.Root) {
 			return fmt.Errorf("Transform returned %s, want %s", gotShape(res), wantShape(c.Root))
 		}
-		if terr != nil && res != nil {
+		if terr != nil && res != nil && !c.FailTransNode {
 			return fmt.Errorf("Transform returned both a node and an error")
 		}
 	} else {
